@@ -253,6 +253,11 @@ class Program:
             n_sc = scalarise_records(tree)
             if n_sc:
                 inlined = inlined + [f"scalarised {n_sc} record local(s)"]
+            from .normalize import coalesce_copies
+
+            n_cc = coalesce_copies(tree)
+            if n_cc:
+                inlined = inlined + [f"coalesced {n_cc} plain copies"]
             n_fs = forward_substitute_temps(tree)
             if n_fs:
                 inlined = inlined + [f"forward-substituted {n_fs} adjacent single-use temporaries / bool() tests"]
